@@ -5,7 +5,8 @@ pub fn primitive_root(prime: u64) -> Option<u64> {
         .iter()
         .map(|factor| (prime - 1) / factor)
         .collect();
-    'next: for potential_root in 2..prime {
+    // start at 1 so that the prime 2 (whose only primitive root is 1) is handled; for every odd prime, 1 is rejected below
+    'next: for potential_root in 1..prime {
         // for each distinct factor, if potential_root^(p-1)/factor mod p is 1, reject it
         for exp in &test_exponents {
             if modular_exponent(potential_root, *exp, prime) == 1 {
